@@ -423,6 +423,7 @@ def run(ctx):  # noqa: C901, PLR0912, PLR0915
                                           'sdc11073.provider.sco._OperationsWorker.run'])
     gathers_isolate_subscribers(ctx, 'C09.R4')
     enqueue_is_bounded(ctx, 'C09.R2')
+    ctx.borrow('C04', {'C04.R1'}, 'C09.R2', contains=['run_coro', 'block', 'wait'], why='a notification is delivered before the next state is notified')
     from . import common
     common.log_templates_are_constant(ctx, 'C09.R4', ['sdc11073.provider.sco', 'sdc11073.provider.operations',
                                                       'sdc11073.provider.porttypes', 'sdc11073.provider.providerimpl',
